@@ -1037,7 +1037,7 @@ void vrt_tick(unsigned n) {
 /* ------------------------------------------------------------------ hooks from libfiber */
 void libfiber_verif_fence(int kind) {
   vthread_t* s = self;
-  if (!g_on || !s || s->in_rt) return;
+  if (!g_on || !s || s->in_rt || s->atomic_depth > 0) return; /* no step boundary inside an atomic section */
   s->in_rt++;
   finish_step(s);
   buf_printf("{\"i\":%ld,\"t\":\"t%d\",\"k\":\"fence\",\"kind\":%d,\"fn\":\"%s\"}\n", g_evno++, s->idx, kind,
